@@ -692,7 +692,7 @@ dictionary * iniparser_load(const char * ininame)
         if (len==0)
             continue;
         /* Safety check against buffer overflows */
-        if (line[len]!='\n') {
+        if (line[len]!='\n' && !feof(in)) { /* the last line of a file may end without a newline */
             fprintf(stderr,
                     "iniparser: input line too int64_t in %s (%d)\n",
                     ininame,
